@@ -148,6 +148,11 @@ TWOSUP == [Bp("TWOSUP", C1, << Sd("C", "GOV", "ConsolidatedGovernment"), Sd("C",
                                Sd("C", "BUS", "FixedMarginBusiness"), Sd("C", "BUS2", "FixedMarginBusiness"),
                                Sd("C", "TF", "TaxFlow"), Sd("C", "LAB", "Market"), Sd("C", "GOOD", "Market") >>, {3, 4})
           EXCEPT !.wellformed = FALSE]
+\* ill-formed: a supplier registered with an allocation rule, no residual supplier, and the fall-back search for one fails
+\* (two candidates / none): total supply could not be allocated, the model must be refused
+TWOSUPRULE == [TWOSUP EXCEPT !.name = "TWOSUPRULE", !.suppliers = << [mkt |-> 7, sup |-> 4, rule |-> TRUE] >>]
+NOSUPRULE == [NOSUP EXCEPT !.name = "NOSUPRULE", !.suppliers = << [mkt |-> 4, sup |-> 2, rule |-> TRUE] >>]
+
 
 \* ---- renamed twins: other sector / goods / labour codes through the constructor parameters (C18) -------------
 Rn(d) == [d EXCEPT !.good = "WID_GET", !.lab = "WORK", !.taxto = "GOVT"]
@@ -351,6 +356,6 @@ TWOCAPS == [Bp("TWOCAPS", C1,
               Sd("C", "TF", "TaxFlow"), Sd("C", "LAB", "Market"), Sd("C", "GOOD", "Market") >>, {3, 4, 5, 8})
         EXCEPT !.freeq = {4, 5}, !.exo = << Exo(1, "DEM_GOOD") >>, !.wellformed = FALSE]
 
-AllBlueprints == {FUNDDEP, SIMXG, CASECODES, SIMTRE, IMPORT2, ROWAID, TAXOWN, GOLDCBIMP, SIMINF, SELFBUY, TAXBUS, TWOCAPS, RINGFAN, SIMPLAIN, SIMBOOK, SIMEX1BOOK, PCBOOK, REGBOOK, REG2BOOK, MULTIX, TRIREG, TWOBUSX, RING3, REG2, GOLDCB, TWOBUS, TWOGIFTS, SIMBOND, IMPORTRES, NOEXT3, SIMX, SIMR, SIMEXR, JOIN2, JOIN2X, GOLD2, GOLDNOEXT, SIM, SIMEX, SIMCAP, SIMMARGIN, SIMMON, SIMDEP, PC, MULTI, FED, GIFT, GIFT2, IMPORT, NOEXT1, NOEXT2, NOSUP, TWOSUP}
+AllBlueprints == {TWOSUPRULE, NOSUPRULE, FUNDDEP, SIMXG, CASECODES, SIMTRE, IMPORT2, ROWAID, TAXOWN, GOLDCBIMP, SIMINF, SELFBUY, TAXBUS, TWOCAPS, RINGFAN, SIMPLAIN, SIMBOOK, SIMEX1BOOK, PCBOOK, REGBOOK, REG2BOOK, MULTIX, TRIREG, TWOBUSX, RING3, REG2, GOLDCB, TWOBUS, TWOGIFTS, SIMBOND, IMPORTRES, NOEXT3, SIMX, SIMR, SIMEXR, JOIN2, JOIN2X, GOLD2, GOLDNOEXT, SIM, SIMEX, SIMCAP, SIMMARGIN, SIMMON, SIMDEP, PC, MULTI, FED, GIFT, GIFT2, IMPORT, NOEXT1, NOEXT2, NOSUP, TWOSUP}
 QuickBlueprints == { [b EXCEPT !.free = b.freeq] : b \in AllBlueprints }
 =============================================================================
